@@ -243,6 +243,9 @@ func RunOne(t *testing.T, w *World, o RunOpts) *RunResult {
 	t.Run(fmt.Sprintf("%s/%d", w.Name, o.Seed), func(t *testing.T) {
 		cryptotest.SetGlobalRandom(t, o.Seed)
 		verifsync.SeedRand(o.Seed)
+		// seeded preemption points inside the system under test (build rule R8): off in half of the runs
+		verifsync.SeedPoints(o.Seed, []uint64{0, 8, 0, 64, 0, 512, 0, 4096}[o.Seed%8])
+		defer verifsync.SeedPoints(0, 0)
 		defer func() {
 			if r := recover(); r != nil {
 				msg := fmt.Sprint(r)
@@ -262,7 +265,9 @@ func RunOne(t *testing.T, w *World, o RunOpts) *RunResult {
 			env.Mode = w.Mode
 			env.Debug = o.KeepTrace
 			n.Record = o.KeepTrace
+			stopPoints := verifsync.StartPoints()
 			func() {
+				defer stopPoints()
 				defer func() {
 					for i := len(env.cleanup) - 1; i >= 0; i-- {
 						env.cleanup[i]()
@@ -272,6 +277,12 @@ func RunOne(t *testing.T, w *World, o RunOpts) *RunResult {
 			}()
 			res.Violations = env.Violations
 			res.Probes, res.Faults = env.Probes, env.Faults
+			if verifsync.Points > 0 {
+				if res.Faults == nil {
+					res.Faults = map[string]int{}
+				}
+				res.Faults["preemption-inside-step"] += verifsync.Points
+			}
 			res.NonTrivial = env.NonTrivial
 			res.Shape += env.ShapeExtra
 			res.Steps = env.Sched.Steps
